@@ -131,6 +131,12 @@ def generate(run_seed, index, tier):
         word = ''.join('a' if prog_r.random() < p_append else 'q' for _ in range(L))
     ops = []
     unresolved = {0: 0, 1: 0}
+    wide_r = st['wide']  # its own stream, as below
+    if (not stratified) and wide_r.random() < 0.05:
+        return _wide_plan(wide_r, cfg_r, lru, thorough)
+    thr_r = st['threads']  # its own stream: plans of runs that do not take this branch are unchanged
+    if (not stratified) and thr_r.random() < 0.10:
+        return _thread_plan(thr_r, cfg_r, nmax, lru, thorough)
 
     def pauli_ints(k):
         return [prog_r.getrandbits(2 * 8 + 2) for _ in range(k)]
@@ -189,8 +195,95 @@ def generate(run_seed, index, tier):
     return {'engine': PROPERTY, 'config': {'nmax': nmax, 'lru': lru, 'entropy': cfg_r.getrandbits(32)}, 'ops': ops}
 
 
+def _wide_plan(r, cfg_r, lru, thorough):
+    """registers wider than the dense model can hold (up to 16 qubits): every circuit touches at most 5 qubits of the register, so
+    the dense model of the *relabelled* compact circuit predicts it exactly (U = U_compact (x) identity). Several circuits per run,
+    same register, so module-level state keyed by qubit indices is shared between them."""
+    W = r.choice([8, 11, 12, 13, 14, 16])
+    k = r.randint(2, 5)
+    if W >= 11 and r.random() < 0.5:
+        z = r.randrange(min(6, W - 10))
+        pool = sorted({1, 11, z, 10 + z} | set(r.sample(range(W), max(0, k - 4))))  # indices whose decimal digits concatenate alike
+    else:
+        pool = sorted(r.sample(range(W), k))
+    anchor = r.random() < 0.7
+    if anchor and (W - 1) not in pool:
+        pool = sorted(pool[:4] + [W - 1])  # every circuit of the run then has the same register size
+    ops = []
+    for _ in range(r.randint(2, 4)):
+        kk = len(pool)
+        gates = [['H', kk - 1]] if anchor else []
+        for _ in range(r.randint(2, 12 if not thorough else 24)):
+            g = r.choice(SINGLE + TWO + TWO)
+            gates.append([g] + (r.sample(range(kk), 2) if g in TWO else [r.randrange(kk)]))
+        ops.append({'op': 'wide', 'W': W, 'qmap': pool, 'gates': gates, 'mid': r.randrange(len(gates) + 1),
+                    'p': [r.getrandbits(2 * kk + 2) for _ in range(r.randint(1, 5))], 'rest': r.getrandbits(2 * W)})
+    return {'engine': PROPERTY, 'config': {'nmax': W, 'lru': lru, 'entropy': cfg_r.getrandbits(32)}, 'ops': ops}
+
+
+def _thread_plan(r, cfg_r, nmax, lru, thorough):
+    """two caller threads, each with its OWN CliffordCircuit (nothing but numqi's module state is shared), query concurrently;
+    the scheduler decides every hand-over (op 'conc', simkit.faults.Interleaver)"""
+    nmax = max(1, min(nmax, 6))
+    gates = SINGLE + (TWO if nmax >= 2 else [])
+
+    def app(c):
+        g = r.choice(gates)
+        return {'op': 'append', 'c': c, 'g': g, 'q': r.sample(range(nmax), 2) if g in TWO else [r.randrange(nmax)]}
+
+    def qry(c):
+        k = r.choice(['form', 'form', 'apply', 'apply', 'auto', 'apply_all'])
+        o = {'op': k, 'c': c}
+        if k == 'apply':
+            o['p'] = [r.getrandbits(18) for _ in range(r.randint(1, 4))]
+        elif k == 'auto':
+            o['pairs'] = [[r.getrandbits(18), r.getrandbits(18)] for _ in range(r.randint(1, 3))]
+        return o
+    ops = []
+    same_width = r.random() < 0.75
+    for c in (0, 1):
+        if same_width:
+            ops.append({'op': 'append', 'c': c, 'g': 'H', 'q': [nmax - 1]})
+        for _ in range(r.randint(1, 14 if not thorough else 30)):
+            ops.append(app(c))
+        if r.random() < 0.3:
+            ops.append(qry(c))
+            for _ in range(r.randint(1, 6)):
+                ops.append(app(c))
+    if r.random() < 0.25:
+        ops.append({'op': 'fork', 'c': 0})
+        for c in (0, 1):
+            for _ in range(r.randint(1, 4)):
+                ops.append(app(c))
+    for k in range(r.randint(1, 3)):
+        if k:
+            for c in (0, 1):
+                for _ in range(r.randint(1, 5)):
+                    ops.append(app(c))
+        if r.random() < 0.4:
+            ops.append({'op': 'wipe'})
+        ops.append({'op': 'conc', 'a': qry(0), 'b': qry(1), 'first': r.randrange(2),
+                    'quanta': [r.choice([1, 2, 3, 5, 8, 13, 21, 34, 55]) for _ in range(r.randint(1, 14))]})
+    for c in (0, 1):
+        ops.append({'op': 'form', 'c': c})
+        ops.append({'op': 'apply', 'c': c, 'p': [r.getrandbits(18) for _ in range(4)]})
+    return {'engine': PROPERTY, 'config': {'nmax': nmax, 'lru': lru, 'entropy': cfg_r.getrandbits(32)}, 'ops': ops}
+
+
 def simplify(plan):
     ops = plan['ops']
+    for i, o in enumerate(ops):
+        if o['op'] == 'conc':
+            if len(o['quanta']) > 1:
+                for j in range(len(o['quanta'])):
+                    p = copy.deepcopy(plan)
+                    del p['ops'][i]['quanta'][j]
+                    yield p
+            for side in ('a', 'b'):
+                if o[side]['op'] != 'form':
+                    p = copy.deepcopy(plan)
+                    p['ops'][i][side] = {'op': 'form', 'c': o[side]['c']}
+                    yield p
     for i, o in enumerate(ops):
         if 'fault' in o:
             p = copy.deepcopy(plan)
@@ -238,6 +331,11 @@ class Violation(Exception):
         self.oracle, self.api, self.detail = oracle, api, detail
 
 
+class _Capture(Exception):
+    def __init__(self, fn_on, circ, api):
+        self.fn_on, self.circ, self.api = fn_on, circ, api
+
+
 class Cand:
     __slots__ = ('hist', '_U')
 
@@ -279,6 +377,8 @@ class Sim:
         self.shape = []
         self.last_kind = {}
         self.seen_q_then_a = {}
+        self.mode = None  # None | 'capture' | 'replay' (op 'conc': the SUT call of a query runs on a simulated caller thread)
+        self.pre = None
         self.handed = []  # (R object, S object, copy of R, copy of S, history at that time) handed out by earlier queries
 
     def bump(self, k, v=1):
@@ -304,6 +404,14 @@ class Sim:
     # ---- running one SUT call with an optional fault ----
     def call(self, world, op, fn_on, circ, api):
         """fn_on(circuit) performs the SUT call. Returns ('ok', value) | ('faulted', None)"""
+        if self.mode == 'capture':
+            raise _Capture(fn_on, circ, api)
+        if self.mode == 'replay':
+            self.mode = None
+            kind_, val_ = self.pre
+            if kind_ == 'exc':
+                raise Violation('unexpected_exception', api, f'{type(val_).__name__}: {val_} (raised while another caller thread, working on its own circuit, was parked inside numqi)')
+            return 'ok', val_
         flt = op.get('fault')
         if not flt:
             try:
@@ -620,6 +728,115 @@ class Sim:
         self.bump('probe.unspecified_reject_accepted')
         return None
 
+    def do_wide(self, world, op):
+        """a circuit on a register of W<=16 qubits that touches only the qubits of op['qmap']: checked against the dense model of the
+        relabelled compact circuit (relabelling qubits and tensoring with identities cannot change a conjugation action)"""
+        W, qmap = int(op['W']), list(op['qmap'])
+        k = len(qmap)
+        hist = tuple(tuple(g) for g in op['gates'])
+        try:
+            circ = self.nq.sim.CliffordCircuit()
+            mid_form = None
+            for j, g in enumerate(hist):
+                if j == op['mid'] and j > 0:
+                    mid_form = circ.to_symplectic_form()  # memo exists, later gates are pending
+                getattr(circ, g[0])(*[qmap[q] for q in g[1:]])
+            R, S = self.valid_tableau(circ.to_symplectic_form())
+        except Violation:
+            raise
+        except Exception as e:
+            raise Violation('unexpected_exception', 'to_symplectic_form', f'{type(e).__name__}: {e} (register of {W} qubits, gates on {qmap})')
+        Wc = R.shape[0] // 2
+        need = max(qmap[q] for g in hist for q in g[1:]) + 1
+        if Wc < need or S.shape != (2 * Wc, 2 * Wc):
+            raise Violation('conjugation', 'to_symplectic_form', f'tableau of shape {R.shape},{S.shape} for a circuit that reaches qubit {need - 1}')
+        if not dp.is_symplectic(S):
+            raise Violation('conjugation', 'to_symplectic_form', f'S is not symplectic on a {Wc}-qubit register')
+        inside = [q for q in qmap if q < Wc]
+        cand = Cand(hist)
+        U = dp.history_unitary(hist, k)
+        Ud = U.conj().T
+        ap = self.nq.sim.clifford.apply_clifford_on_pauli
+        rest = int(op.get('rest', 0))
+        for pk in op['p']:
+            pc = _bits(pk, k)
+            P = np.zeros(2 * Wc + 2, dtype=np.uint8)
+            for j in range(Wc):  # arbitrary Pauli on the untouched qubits: it must come back unchanged
+                if j not in qmap:
+                    P[2 + j], P[2 + Wc + j] = (rest >> j) & 1, (rest >> (16 + j)) & 1
+            P[0], P[1] = pc[0], pc[1]
+            for a, q in enumerate(qmap):
+                if q < Wc:
+                    P[2 + q], P[2 + Wc + q] = pc[2 + a], pc[2 + k + a]
+                else:
+                    pc[2 + a] = pc[2 + k + a] = 0
+            try:
+                o1 = circ.apply_pauli_F2(P.copy())
+                o2 = ap(P.copy(), R, S)
+            except Exception as e:
+                raise Violation('unexpected_exception', 'apply_pauli_F2', f'{type(e).__name__}: {e} (register of {Wc} qubits)')
+            if not np.array_equal(o1, o2):
+                raise Violation('conjugation', 'apply_pauli_F2', f'apply_pauli_F2 and the tableau of the same circuit disagree on a {Wc}-qubit register')
+            o = np.asarray(o1)
+            for j in range(Wc):
+                if j not in qmap and (o[2 + j] != P[2 + j] or o[2 + Wc + j] != P[2 + Wc + j]):
+                    raise Violation('conjugation', 'apply_pauli_F2', f'gates on qubits {qmap} of a {Wc}-qubit register changed the Pauli on untouched qubit {j} (history {list(hist)})')
+            oc = np.array([o[0], o[1]] + [o[2 + q] if q < Wc else 0 for q in qmap] + [o[2 + Wc + q] if q < Wc else 0 for q in qmap], dtype=np.uint8)
+            if not _close(dp.pauli_matrix(oc), Ud @ dp.pauli_matrix(pc) @ U):
+                raise Violation('conjugation', 'apply_pauli_F2', f'on a {Wc}-qubit register with gates {list(hist)} relabelled onto qubits {qmap}: image {oc.tolist()} of {pc.tolist()} (compact encoding) is not U^dagger P U')
+        self.log.add('wide', W, qmap, R, S)
+        self.bump('wide_register_circuits')
+        self.stats['max.register_width'] = max(self.stats.get('max.register_width', 0), Wc)
+        self.bump('appends', len(hist))
+        self.bump('queries')
+        self.shape.append('W')
+        self.checked_queries = getattr(self, 'checked_queries', 0) + 1
+
+    def do_conc(self, world, op):
+        """two simulated caller threads, each querying its own circuit; hand-overs decided by op['quanta']"""
+        fns = {'form': self.do_form, 'apply': self.do_apply, 'auto': self.do_auto,
+               'apply_all': lambda w, o, cc, ci: self.do_apply(w, o, cc, ci, all_=True)}
+        sides = [op['a'], op['b']]
+        if op.get('first'):
+            sides.reverse()
+        caps = []
+        for s in sides:
+            c = s['c']
+            circ = self.get_circ(c)
+            if c in self.unspecified or any(len(cand.hist) == 0 for cand in self.cands[c]):
+                return
+            self.mode = 'capture'
+            try:
+                fns[s['op']](world, s, c, circ)
+                return  # the query declined before touching the SUT (ambiguous width): nothing to run
+            except _Capture as cap:
+                caps.append(cap)
+            finally:
+                self.mode = None
+        if caps[0].circ is caps[1].circ:
+            return
+        il = faults.Interleaver()
+        res = il.run([(lambda cap=cap: cap.fn_on(cap.circ)) for cap in caps], list(op['quanta']))
+        self.bump('fault.thread_preemption.configured', len(op['quanta']))
+        self.bump('fault.thread_preemption.fired', il.switches)
+        self.bump('conc_ops')
+        if il.switches:
+            self.bump('conc_ops_with_a_switch')
+        self.stats['max.points_in_one_conc'] = max(self.stats.get('max.points_in_one_conc', 0), il.points)
+        self.log.add('conc', il.points, il.switches, [r[0] for r in res])
+        for s, r in zip(sides, res):
+            c = s['c']
+            self.mode, self.pre = 'replay', r
+            try:
+                fns[s['op']](world, s, c, self.circ[c])
+            finally:
+                self.mode = None
+            self.bump('queries')
+            self.bump(f"q.conc.{s['op']}")
+            self.shape.append('T')
+            self.checked_queries = getattr(self, 'checked_queries', 0) + 1
+            self.last_kind[c] = 'q'
+
     def check_handed_out(self):
         for Ro, So, Rc, Sc, hist in self.handed:
             if not (np.array_equal(Ro, Rc) and np.array_equal(So, Sc)):
@@ -639,6 +856,12 @@ class Sim:
             self.bump('fault.cache_wipe.fired')
             self.log.add('wipe')
             self.shape.append('w')
+            return
+        if kind == 'conc':
+            self.do_conc(world, op)
+            return
+        if kind == 'wide':
+            self.do_wide(world, op)
             return
         c = op.get('c', 0)
         circ = self.get_circ(c)
